@@ -20,7 +20,7 @@ theorem source_equalFold (s t : Bytes) (h : GoSsa.Heap)
     GoSsa.Ret Gen.Src.str false Gen.Src.str_EqualFold [.str s 0 0, .str t 1 0] h [.bool (S.equalFold s t)] h ∧
     Std.equalFoldS s t = some (S.equalFold s t) := by
   have hc := GoSsa.Str.Compare s t 0 0 1 0 h hls hlt
-  have hw := GoSsa.Str.EqualFold _ _ h h _ hc
+  have hw := GoSsa.Str.EqualFold_of_Compare _ _ h h _ hc
   have e : decide (A.Compare (GoSsa.cfg false) s t = 0) = A.EqualFold (GoSsa.cfg false) s t := by
     unfold A.EqualFold
     by_cases hh : A.Compare (GoSsa.cfg false) s t = 0 <;> simp [hh]
@@ -35,7 +35,7 @@ theorem source_equalFold_bytcase (s t : Bytes) (h : GoSsa.Heap)
     GoSsa.Ret Gen.Src.byt true Gen.Src.byt_EqualFold [.str s 0 0, .str t 1 0] h [.bool (S.equalFold s t)] h ∧
     Std.equalFoldB s t = some (S.equalFold s t) := by
   have hc := GoSsa.Byt.Compare s t 0 0 1 0 h hls hlt
-  have hw := GoSsa.Byt.EqualFold _ _ h h _ hc
+  have hw := GoSsa.Byt.EqualFold_of_Compare _ _ h h _ hc
   have e : decide (A.Compare (GoSsa.cfg true) s t = 0) = A.EqualFold (GoSsa.cfg true) s t := by
     unfold A.EqualFold
     by_cases hh : A.Compare (GoSsa.cfg true) s t = 0 <;> simp [hh]
